@@ -2462,6 +2462,9 @@ class Exec:
         if depth_key > 8:
             raise Unsupported("inline depth")
         self.cur_fn_stack.append(fn.name)
+        if not hasattr(self, "inlined_fns"):
+            self.inlined_fns = {}
+        self.inlined_fns["%s.%s" % (owner_cls, fn.name)] = fn     # their bodies are part of this function's VCs
         base_path_len = len(st.path)
         base_pc_len = len(st.pc)
         st.locals = dict(binding)
